@@ -20,6 +20,9 @@ COMMON_NOTE = ("Trusted: the harness's dense long-double reference, the choice-s
                "Exploration only: the property is shown to hold on the generated cases (counts in the evidence file), nothing is proved.")
 
 INFO = {
+    "C20": dict(level="exploration", assumptions=COMMON_ASSUME + ["the bridge is plain C and is called from C with by-reference arguments exactly as a Fortran caller would; no Fortran compiler exists in the sandbox"], note=COMMON_NOTE,
+                technique="stateful property-based testing (rapidcheck): generated factor/solve/free histories over three handles, differential (bit-for-bit) against the C simple driver plus the C01 residual oracle and ledger balance",
+                text="Whole request histories are generated and shrunk as one value; after every request the invariants of the bridge are checked against the C driver run on the same matrix."),
     "C18": dict(level="exploration", assumptions=["argument positions read off the routine signatures and headers; ColPerm outside its enumeration is a documented ABORT, not an info return, and is not generated"], note=COMMON_NOTE,
                 technique="property-based testing (rapidcheck) over a table of single-argument corruptions applied to a randomly generated valid call; exact info value, bit-exact snapshots, allocation-ledger balance",
                 text="Every (routine, corruption) pair of the table is exercised many times per run on random valid base calls; the evidence lists the pairs covered. The space of corruptions is small and enumerated by the table; the base call is random."),
@@ -63,7 +66,7 @@ INFO = {
 
 NOT_APPLICABLE = {}
 
-PROPS = ["C01", "C02", "C03", "C04", "C05", "C10", "C11", "C12", "C13", "C14", "C16", "C17", "C18"]
+PROPS = ["C01", "C02", "C03", "C04", "C05", "C10", "C11", "C12", "C13", "C14", "C16", "C17", "C18", "C20"]
 
 
 def all_props():
